@@ -41,7 +41,7 @@ def ref_step(pop, b0, b1):
 def gen_cfg(r, i):
     cfg = {"seed": int(r.integers(1, 100000)), "n_samples": int(r.choice([10, 16, 24])), "dims": int(r.choice([1, 2])),
            "like_width": float(r.choice([0.25, 0.5, 1.0])), "kernel_steps": 2}
-    mode = ["adaptive", "fixed", "max_n_steps", "min_step", "ramp", "final", "cap"][i % 7]
+    mode = ["adaptive", "fixed", "max_n_steps", "min_step", "ramp", "final", "cap", "degenerate"][i % 8]
     if mode == "fixed":
         cfg.update(adaptive=False, n_steps=int(r.choice([2, 3, 5, 7])))
     elif mode == "max_n_steps":
@@ -52,6 +52,11 @@ def gen_cfg(r, i):
         cfg.update(target_efficiency=(0.25, 0.75))
     elif mode == "cap":          # explicit floor + cap: the run stops at the cap with beta < 1
         cfg.update(min_step=0.01, max_n_steps=int(r.integers(1, 4)), like_width=0.3)
+    elif mode == "degenerate":   # weights already degenerate at the smallest resolvable step: the fallback step is taken
+        cfg.update(like_width=float(10 ** r.uniform(-5.5, -4)), n_samples=10, dims=1, max_n_steps=int(r.choice([2, 3])), min_step=1e-9)
+    if mode not in ("ramp", "degenerate") and r.random() < 0.3:
+        cfg.update(target_efficiency=(float(r.choice([0.15, 0.3])), float(r.choice([0.6, 0.9]))),
+                   target_efficiency_rate=float(r.choice([0.25, 1.0, 3.0])))
     if mode == "final" or r.random() < 0.25:
         cfg["n_final_samples"] = int(cfg["n_samples"] * r.choice([0.5, 2]))
     cfg["checkpoint_every"] = int(r.choice([1, 1, 2, 3]))
